@@ -8,6 +8,7 @@ from ..source import Unsupported, AnchorError, docstring, params
 from ..xlate import (Interp, Obj, ListV, Elem, SumV, Raised, RankOrder, DictV, expected_params, FuncRef,
                      BoundOpaque)
 from .common import same, show, deriv, is_zero, sub, atoms_of, sig, opaque_obj
+from .rxnfix import set_public, get_public
 
 SM = 'pmutt.statmech'
 
@@ -49,10 +50,14 @@ def mode_instances(I, repo):
         return Obj(name, repo.cls(qual), **kw)
 
     out.append(('FreeTrans', mk(SM + '.trans.FreeTrans'), base, 1, True))
-    out.append(('HarmonicVib', mk(SM + '.vib.HarmonicVib', vec_attrs=['_valid_vib_temperatures']), base, 0, True))
-    out.append(('QRRHOVib', mk(SM + '.vib.QRRHOVib', vec_attrs=['_valid_vib_temperatures',
-                                                                 '_valid_scaled_wavenumbers',
-                                                                 '_valid_scaled_inertia']), base, 0, True))
+    # vibrational models are built by their own constructors from a vector (of any length) of real wavenumbers nu:
+    # what they cache, and under which names, is private
+    nu = Elem(D.sym('nu'))
+    out.append(('HarmonicVib', I.construct(repo.cls(SM + '.vib.HarmonicVib'), [], {'vib_wavenumbers': nu},
+                                           name='self'), base, 0, True))
+    out.append(('QRRHOVib', I.construct(repo.cls(SM + '.vib.QRRHOVib'), [],
+                                        {'vib_wavenumbers': nu, 'Bav': D.sym('Bav'), 'v0': D.sym('v0')},
+                                        name='self'), base, 0, True))
     out.append(('EinsteinVib', mk(SM + '.vib.EinsteinVib'), base, 0, True))
     out.append(('DebyeVib', mk(SM + '.vib.DebyeVib'), base, 0, 'debye'))
     for g in ('monatomic', 'linear', 'nonlinear'):
@@ -68,18 +73,25 @@ def mode_instances(I, repo):
                                  'get_HoRT_state', 'get_SoR_state')})
     sp1 = opaque_obj(I, 'surf', {'get_E': ('T', 'units', 'P'), 'get_H': ('T', 'units', 'P')})
     sp2 = opaque_obj(I, 'gas', {'get_E': ('T', 'units', 'P'), 'get_H': ('T', 'units', 'P')})
-    out.append(('LSR', mk(SM + '.lsr.LSR', attrs={'_reaction': rxn, '_surf_species': sp1, '_gas_species': sp2}),
-                base, 0, False))
+    # attributes go in through the public properties (their private storage names are the class's own business)
+    rxn.isa.add('Reaction')
+    sp1.isa.add('_ModelBase')
+    sp2.isa.add('_ModelBase')
+    lsr = mk(SM + '.lsr.LSR')
+    for k_, v_ in (('reaction', rxn), ('surf_species', sp1), ('gas_species', sp2)):
+        set_public(I, lsr, k_, v_)
+    out.append(('LSR', lsr, base, 0, False))
     rxn2 = opaque_obj(I, 'rxn2', {k: ('T', 'units', 'P') for k in ('get_delta_E', 'get_delta_H')})
-    out.append(('ExtendedLSR', mk(SM + '.lsr.ExtendedLSR',
-                                  attrs={'_reactions': ListV([rxn, rxn2]), '_surf_species': ListV([sp1, sp2]),
-                                         '_gas_species': ListV([sp2, sp1]),
-                                         'slopes': ListV([D.sym('m0'), D.sym('m1')])}), base, 0, False))
+    rxn2.isa.add('Reaction')
+    xlsr = mk(SM + '.lsr.ExtendedLSR', attrs={'slopes': ListV([D.sym('m0'), D.sym('m1')])})
+    for k_, v_ in (('reactions', ListV([rxn, rxn2])), ('surf_species', ListV([sp1, sp2])),
+                   ('gas_species', ListV([sp2, sp1]))):
+        set_public(I, xlsr, k_, v_)
+    out.append(('ExtendedLSR', xlsr, base, 0, False))
     x = D.sym('x')
-    cov = mk('pmutt.mixture.cov.PiecewiseCovEffect',
-             attrs={'intervals': ListV([C(0), D.sym('b1')]), 'slopes': ListV([D.sym('k0'), D.sym('k1')]),
-                    '_intercepts': ListV([C(0), D.sym('c1')])})
-    cov.opaque_index = True
+    cov = I.construct(repo.cls('pmutt.mixture.cov.PiecewiseCovEffect'), [],
+                      {'name_i': 'A', 'name_j': 'B', 'intervals': ListV([C(0), D.sym('b1')]),
+                       'slopes': ListV([D.sym('k0'), D.sym('k1')])}, name='self')
     out.append(('PiecewiseCovEffect', cov, {'T': T, 'P': P, 'x': x}, 0, False))
     refs = mk('pmutt.empirical.references.References',
               attrs={'offset': DictV({'A': D.sym('offA'), 'B': D.sym('offB')})})
@@ -91,7 +103,7 @@ def mode_instances(I, repo):
 
 
 def check_modes(run, repo):
-    I = Interp(repo, order=RankOrder({'x': 1, 'b1': 2}, const_ranks=True))
+    I = Interp(repo, order=RankOrder({'x': 1, 'b1': 2, 'nu': 1}, const_ranks=True))
     D = I.D
     T, P = D.sym('T'), D.sym('P')
     n_twin = n_deriv = 0
@@ -201,7 +213,9 @@ def ref_forms(run, repo, I, store):
         n_ref += 1
 
     # harmonic oscillator (per mode, summed over the valid vibrational temperatures)
-    th = D.sym('self._valid_vib_temperatures')
+    nu = D.sym('nu')
+    cm = repo.module('pmutt.constants')
+    th = I.call_function(cm, cm.functions['wavenumber_to_temp'], [nu], {})     # public: h c nu / kB
     x = th / T
     e = D.exp(-x)
     u_h = x / 2 + x * e / (1 - e)
@@ -211,8 +225,14 @@ def ref_forms(run, repo, I, store):
     chk('HarmonicVib', 'SoR', SumV(C(0), s_h), 'harmonic oscillator S/R = sum x/(e^x-1) - ln(1-e^-x)')
     chk('HarmonicVib', 'CvoR', SumV(C(0), cv_h), 'harmonic oscillator Cv/R = sum x^2 e^x/(e^x-1)^2')
     # quasi-RRHO (Grimme): w*harmonic + (1-w)*free rotor
-    w = D.sym('self._valid_scaled_wavenumbers')
-    mu = D.sym('self._valid_scaled_inertia')
+    # Grimme's weights: w = 1/(1 + (v0/nu)^alpha) (alpha = 4, the default) and the effective moment of inertia
+    # mu' = mu*Bav/(mu + Bav) with mu = h/(8 pi^2 c nu)
+    v0, Bav = D.sym('v0'), D.sym('Bav')
+    r4 = (v0 / nu) * (v0 / nu) * (v0 / nu) * (v0 / nu)
+    w = 1 / (1 + r4)
+    freq = th * kb / h                  # c nu in 1/s
+    mu0 = h / (8 * pi * pi * freq)
+    mu = mu0 * Bav / (mu0 + Bav)
     s_rot = Fr(1, 2) + D.ln(D.powq(C(8) * pi * pi * pi * mu * kb * T / (h * h), Fr(1, 2)))
     chk('QRRHOVib', 'UoRT', SumV(C(0), w * u_h + (1 - w) * Fr(1, 2)), 'quasi-RRHO U/RT = sum w*U_HO + (1-w)/2')
     chk('QRRHOVib', 'CvoR', SumV(C(0), w * cv_h + (1 - w) * Fr(1, 2)), 'quasi-RRHO Cv/R = sum w*Cv_HO + (1-w)/2')
@@ -599,21 +619,26 @@ def cached_fields(run, repo):
                          owner.module, fn)
                 n += 8      # the dependent instances below are not evaluated for this variant
                 continue
-            run.fn(owner.qual + '.vib_wavenumbers.setter', SM + '.vib._get_valid_vib_wavenumbers')
-            got = o.attrs.get('_valid_vib_wavenumbers')
+            run.fn(owner.qual + '.vib_wavenumbers.setter')
+            # observed through a public getter (the zero-point energy is a sum over the modes that count): the
+            # real wavenumbers are kept as they are and the imaginary one is dropped or replaced
+            def one_mode(wv, q, kw):
+                one = Obj('one', ci, closed=True)
+                I.call_method(one, '__init__', [], {'vib_wavenumbers': ListV([wv]), 'imaginary_substitute': None})
+                return I.call_method(one, 'get_' + q, [], kw)
+            got = I.call_method(o, 'get_ZPE', [], {})
+            want = C(0)
+            for wv in valid:
+                want = I.binop('+', want, one_mode(wv, 'ZPE', {}))
             key = 'substitute=%s' % ('given' if sub_given else 'None')
-            run.check(isinstance(got, ListV) and same(got, ListV(valid)), 'ORDER.filter', cname + '.vib_wavenumbers',
-                      key, 'real wavenumbers must be kept as they are and an imaginary one %s: got %s'
-                      % ('replaced by the substitute' if sub_given else 'dropped', show(got)),
-                      owner.module, fn, sample='filter([real, imag, real], %s) -> %s' % (key, show(got)))
+            run.check(same(got, want), 'ORDER.filter', cname + '.vib_wavenumbers',
+                      key, 'real wavenumbers must be kept as they are and an imaginary one %s: the zero-point energy '
+                      'of [real, imaginary, real] is %s, expected the sum over %s'
+                      % ('replaced by the substitute' if sub_given else 'dropped', show(got, 160),
+                         show(ListV(valid))),
+                      owner.module, fn, sample='ZPE([real, imag, real], %s) == sum over %s' % (key, show(ListV(valid))))
             n += 1
             # getters on the constructed object == sum over the valid modes of the per-mode closed form
-            ref = Obj('ref', ci, vec_attrs=['_valid_vib_temperatures', '_valid_scaled_wavenumbers',
-                                            '_valid_scaled_inertia'])
-            for k in ('Bav', 'v0', 'alpha', 'imaginary_substitute'):
-                if k in o.attrs:
-                    ref.attrs[k] = o.attrs[k]
-            cw = repo.module('pmutt.constants')
             for q in ('UoRT', 'SoR', 'CvoR'):
                 got = I.call_method(o, 'get_' + q, [], {'T': T})
                 o2, f2 = repo.find_method(ci, 'get_' + q)
@@ -635,8 +660,8 @@ def cached_fields(run, repo):
                 a = I.call_method(o, 'get_' + q, [], {'T': T} if q != 'ZPE' else {})
                 b = I.call_method(fresh, 'get_' + q, [], {'T': T} if q != 'ZPE' else {})
                 o2, f2 = repo.find_method(ci, 'get_' + q)
-                stale = sorted(k for k in o.attrs if k.startswith('_valid') and
-                               not same(o.attrs[k], fresh.attrs.get(k)))
+                stale = sorted(k for k in o.attrs if k.startswith('_') and
+                               not same(o.attrs[k], fresh.attrs.get(k)))     # for the message only
                 run.check(same(a, b), 'PATH.refresh', '%s.get_%s' % (cname, q), key,
                           'after assigning new wavenumbers the getter still uses stale cached field(s) %s' % stale,
                           owner.module, fn)
